@@ -100,6 +100,8 @@ static void run_matrix(uint64_t idx, pv_rng* rng) {
     /* half of the cases: address-reusing allocator + stale value left in the out parameter */
     pv_w->reuse_mode = (idx / (E_N * O_N)) & 1; g_stale_out = pv_w->reuse_mode;
     if (g_stale_out) { polyseed_data* w0 = NULL; uint8_t* b0 = malloc(32); pv_mseed m0; memset(&m0, 0, sizeof m0); pv_m_image(&m0, b0); if (pv_api_load(b0, &w0) == POLYSEED_OK) pv_api_free(w0); free(b0); PV_COUNT("matrix.cases_with_stale_out_pointer_and_address_reuse", 1); }
+    pv_w->align8_mode = (idx / (E_N * O_N)) % 3 == 2;          /* blocks that are 8- but not 16-byte aligned: enough for the seed object */
+    if (pv_w->align8_mode) PV_COUNT("matrix.cases_with_8_byte_aligned_blocks", 1);
     int held = pv_ledger_live();
     /* fault-free reference execution */
     polyseed_data* s; int st0 = call(&in, &s);
@@ -145,7 +147,7 @@ static void run_matrix(uint64_t idx, pv_rng* rng) {
     pv_api_free(NULL);
     if (pv_ev_count(PV_EV_FREE) || pv_ev_count(PV_EV_MEMZERO)) { ok = false; pv_violation("C15/free-null-reaches-free", "polyseed_free(NULL) called %d free / %d memzero", pv_ev_count(PV_EV_FREE), pv_ev_count(PV_EV_MEMZERO)); }
     else PV_COUNT("free_null.silent", 1);
-    g_stale_out = false; pv_w->reuse_mode = 0; if (pv_w->cache_ptr) { free(pv_w->cache_ptr); pv_w->cache_ptr = NULL; }
+    g_stale_out = false; pv_w->reuse_mode = 0; pv_w->align8_mode = 0; if (pv_w->cache_ptr) { free(pv_w->cache_base); pv_w->cache_ptr = NULL; }
     if (ok) PV_COUNT("matrix.cases_ok", 1);
     if (idx < E_N * O_N) pv_sample("matrix", "%s: %d allocation request(s) fault-free; failing request 1..%d; input %s", what, nalloc, nalloc + 1, in.str ? pv_esc(in.str) : in.buf ? pv_hex(in.buf, 32) : "create");
     input_free(&in);
